@@ -583,10 +583,15 @@ fn main() {
             let sample: u64 = arg(&args, "--sample").and_then(|s| s.parse().ok()).unwrap_or(64);
             let res = parallel(&inputs, threads, |i| {
                 let o = c04_one(i, true, 0);
-                (o.node.as_ref().map(|n| n.to_string()), o.accepted, o.panicked)
+                (o.node.as_ref().map(|n| n.to_string()), o.accepted, o.panicked, o.sig)
             });
-            for (i, (n, a, p)) in inputs.iter().zip(res.into_iter()) {
-                let o = C04Out { node: n.as_ref().map(|_| Value::Null), accepted: a, panicked: p, sig: 0 };
+            // inputs of one parser with the same observable behaviour are judged once
+            let mut seen: std::collections::HashSet<(String, u64)> = std::collections::HashSet::new();
+            for (i, (mut n, a, p, sig)) in inputs.iter().zip(res.into_iter()) {
+                if n.is_some() && !seen.insert((format!("{}{}{}", i.k, i.v, i.w), sig)) {
+                    n = None;
+                }
+                let o = C04Out { node: n.as_ref().map(|_| Value::Null), accepted: a, panicked: p, sig };
                 stats.add(i, &o);
                 if let Some(l) = n {
                     lines.push(l);
